@@ -599,13 +599,70 @@ static void vf_native(void)
                 canaries=[{"fn": f.name, "rx": r"if \(vec\[i\] < vec\[i - 1\]\) continue;", "rp": "if (vec[i] > vec[i - 1]) continue;", "expect": r"VH_isSorted\.(postcondition|loop_invariant_step)"}])
 
 
+def unit_is_constant(kind, nmax=6):
+    """VH::isConstant (double / int), Route C, loop closed by invariant (pointer walk tied to the rank)."""
+    dbl = kind == "double"
+    T, V, tab = ("double", "VectorDouble", "W_vec") if dbl else ("int", "VectorInt", "W_ivec")
+    cname = "VH_isConstant_" + kind
+    undef = "FFFF_(refval)" if dbl else "(refval == ITEST)"
+    pre = BOOL + """
+#define NMAX %d
+#define ITEST (-1234567)
+#define FFFF_(v) ((v) > 1.0e30 || (v) != (v))
+static bool FFFF(double v) { return FFFF_(v); }
+static bool IFFFF(int v) { return v == ITEST; }
+#define REF_ (%s ? %s[0] : refval)
+""" % (nmax, undef, tab)
+    allp = lambda upto, ref: AND("(%d >= %s || %s[%d] == %s)" % (k, upto, tab, k, ref) for k in range(nmax))
+    contract = "\n".join([
+        "__CPROVER_requires(0 <= vect_size && vect_size <= NMAX && vect == %s)" % tab,
+        "__CPROVER_assigns()",
+        "__CPROVER_ensures(vect_size != 0 || !__CPROVER_return_value)",
+        "__CPROVER_ensures(vect_size == 0 || __CPROVER_return_value == %s)" % allp("vect_size", "REF_"),
+    ])
+    loop = "\n".join([
+        "__CPROVER_assigns(i, iptr)",
+        "__CPROVER_loop_invariant(0 <= i && i <= n && n == vect_size && iptr == %s + i)" % tab,
+        "__CPROVER_loop_invariant(%s)" % allp("i", "refval"),
+        "__CPROVER_decreases(n - i)",
+    ])
+    f = Fn("VectorHelper::isConstant(%s)" % V, "src/Basic/VectorHelper.cpp", r"^bool VectorHelper::isConstant\(const %s& vect, %s refval\)\s*$" % (V, T),
+           csig="bool %s(const %s* vect, int vect_size, %s refval)" % (cname, T, T), contract=contract, loops={1: loop}, nloops=1,
+           rewrites=[(r"vect\.empty\(\)", "(vect_size == 0)", 1), (r"vect\.data\(\)", "vect", 1), (r"\(int\) vect\.size\(\)", "vect_size", 1)])
+    h = """
+void vf_harness(void)
+{
+  vf_havoc_inputs();
+  %s(%s, W_n, W_ref);
+  VF_REACH();
+}
+""" % (cname, tab)
+    native = r"""
+static void vf_native(void)
+{
+  if (!(0 <= W_n && W_n <= NMAX)) exit(77);
+  int r = %s(%s, W_n, W_ref);
+  if (W_n == 0) { __CPROVER_assert(!r, "empty vector: false"); return; }
+  %s refval = W_ref; %s ref = REF_; int e = 1;
+  for (int k = 0; k < W_n; k++) if (!(%s[k] == ref)) e = 0;
+  __CPROVER_assert(r == e, "true exactly when every element equals the reference value (the first element when none is given)");
+}
+""" % (cname, tab, T, T, tab)
+    return Unit("C11.VH.isConstant." + kind, [f], prelude=pre, harness=h, native=native, pre_inputs=BOOL, defines={"NMAX": nmax},
+                inputs=[(T, tab, "NMAX"), ("int", "W_n"), (T, "W_ref")], enforce=cname, backends=("minisat", "cadical"), timeout=600, fallback_unwind=nmax + 2,
+                claim=("VH::isConstant(%s, refval): false for an empty vector, otherwise true exactly when every element equals refval (the first element when "
+                       "refval is undefined), each pass reading the element of its own rank; nothing written; loop closed by invariant (length <= %d)" % (V, nmax)),
+                assumptions=["at most %d elements (quantifier range)" % nmax, "const %s& -> (const %s*, int)" % (V, T)],
+                canaries=[{"fn": f.name, "rx": r"    iptr\+\+;\n", "rp": "", "expect": r"%s\.(postcondition|loop_invariant_step)" % cname}])
+
+
 def units(tier):
-    return [unit_dense_dims(), unit_sparse_dims(), unit_normmatrix(), unit_where("Minimum"), unit_where("Maximum"), unit_where_element(), unit_extremum("maximum"), unit_extremum("minimum"), unit_extremum_vv("maximum"), unit_extremum_vv("minimum"), unit_extremum_int("maximum"), unit_extremum_int("minimum"), unit_is_sorted()]
+    return [unit_dense_dims(), unit_sparse_dims(), unit_normmatrix(), unit_where("Minimum"), unit_where("Maximum"), unit_where_element(), unit_extremum("maximum"), unit_extremum("minimum"), unit_extremum_vv("maximum"), unit_extremum_vv("minimum"), unit_extremum_int("maximum"), unit_extremum_int("minimum"), unit_is_sorted(), unit_is_constant("double"), unit_is_constant("int")]
 
 
 META = {
     "level": "other",
-    "explanation": "(the two dimension units and the ten VH units (whereMinimum, whereMaximum, whereElement, isSorted, maximum, minimum, their vector-of-vectors and VectorInt forms) are unbounded proofs, normMatrix.terms is a bounded stand-in, hence level 'other') Shape/index contracts of the Eigen-backed dense kernels and sparse product kernels for every shape; extremum-rank contracts of VH::whereMinimum / whereMaximum (loop invariant); numerical values, sparse storage, decompositions and thread-count independence are not decidable here.",
+    "explanation": "(the two dimension units and the twelve VH units (whereMinimum, whereMaximum, whereElement, isSorted, isConstant (double, int), maximum, minimum, their vector-of-vectors and VectorInt forms) are unbounded proofs, normMatrix.terms is a bounded stand-in, hence level 'other') Shape/index contracts of the Eigen-backed dense kernels and sparse product kernels for every shape; extremum-rank contracts of VH::whereMinimum / whereMaximum (loop invariant); numerical values, sparse storage, decompositions and thread-count independence are not decidable here.",
     "trusted_base": ["CBMC 6.11 C++ front end", "Eigen (numerics)", "stub classes"],
     "assumptions": [],
     "not_covered": ["values computed by Eigen/csparse", "csparse storage of MatrixSparse and its non-product methods", "Cholesky / eigen-decomposition", "thread-count independence (no thread model)",
